@@ -8,7 +8,7 @@ os.environ.setdefault("VERIF_EVIDENCE_DIR", "/tmp/wt/probe-ev")
 from vf import engine, build, units, rulesets
 fam = sys.argv[1]; cfg = json.loads(sys.argv[2]) if len(sys.argv) > 2 else {"tbl": ""}
 srcs = {"ctx": lambda: rulesets.context_family(False), "ctxfull": lambda: rulesets.context_family(True),
-        "manysc": rulesets.manysc_family, "nulclass": rulesets.nulclass_family, "hand": rulesets.handwritten}[fam]()
+        "manysc": rulesets.manysc_family, "big": rulesets.big_family, "nulclass": rulesets.nulclass_family, "hand": rulesets.handwritten}[fam]()
 run = engine.Run("C01", "quick", 0)
 fd = build.build_flex()
 cases = units.product_unit(run, fd, srcs, [cfg], tag="probe", san=True)
